@@ -166,7 +166,8 @@ class Config:
             cart = frames * lengths
             self.src = [os.path.join(d, 'dump.xyz'), os.path.join(d, 'data.txt')]
             numeric = bool(rng.integers(2))
-            mapping = synth_io.write_lammps(self.src[1], self.src[0], lengths, symbols, cart, numeric_names=numeric)
+            dual = numeric and bool(rng.integers(2))
+            mapping = synth_io.write_lammps(self.src[1], self.src[0], lengths, symbols, cart, numeric_names=numeric, dual_format=dual)
             self.kw = {'temperature': float(rng.integers(300, 900)), 'time_step': float(rng.choice([1.0, 2.0]))}
             if rng.integers(2):
                 # integer temperature, time step of two digits (so that moving a digit from one argument to the
@@ -201,6 +202,9 @@ class Config:
             alt = os.path.join(d, 'relaxed', 'data.txt')
             synth_io.write_lammps(alt, os.path.join(d, 'relaxed', 'unused.xyz'), lengths * 1.01, symbols, cart, numeric_names=numeric)
             self.variants.append({'data_file': alt})
+            if dual:
+                # the same files read with another coordinate format (the dump is valid as XYZ and as Tinker TXYZ)
+                self.variants.append({'coords_format': 'txyz'})
             if numeric:
                 other = dict(mapping)
                 keys = sorted(other)
